@@ -140,10 +140,44 @@ def run_serial(ctx, e, P, spec, X=None, poison=0, seed=1):
         res = type(res)(center_indices=[int(c) for c in res.center_indices], distances=np.array(res.distances),
                         assignments=np.array(res.assignments), centers=[ctr(c) for c in res.centers])
     require(P.data_unchanged(Xw, snap), 'input_modified', 'serial %s modified its data array' % spec['algo'])
+    check_copies(ctx, res, est)
     g = GResult(res.center_indices, res.centers, res.assignments, res.distances)
     g.est = est
     g.raw = res
     return g
+
+
+def _same_field(a, b):
+    if isinstance(a, (list, tuple)):
+        return isinstance(b, (list, tuple)) and len(a) == len(b) and all(_same_field(x, y) for x, y in zip(a, b))
+    return np.array_equal(ctr(a), ctr(b))
+
+
+def check_copies(ctx, res, est):
+    """A result (and a fitted estimator) that went through pickle or deepcopy - to another process, into a checkpoint - reports
+    the same clustering.  Only demanded when the copy can be made at all."""
+    import copy
+    import pickle
+    for how, fn in (('pickle', lambda o: pickle.loads(pickle.dumps(o))), ('deepcopy', copy.deepcopy)):
+        try:
+            r2 = fn(res)
+        except Exception:       # noqa: not being copyable is not what is checked here
+            ctx.count('result_not_copyable')
+            continue
+        for f in ('center_indices', 'assignments', 'distances', 'centers'):
+            require(_same_field(getattr(r2, f), getattr(res, f)), 'copy_differs',
+                    lambda: 'after a %s round trip the result reports other %s: %s vs %s' % (how, f, getattr(r2, f), getattr(res, f)))
+        ctx.postcond('result_survives_' + how)
+    if est is not None:
+        try:
+            e2 = copy.deepcopy(est)
+        except Exception:       # noqa
+            ctx.count('estimator_not_copyable')
+            return
+        for f in ('labels_', 'distances_', 'center_indices_'):
+            require(_same_field(getattr(e2, f), getattr(est, f)), 'copy_differs',
+                    lambda: 'a deep copy of the fitted estimator reports other %s' % f)
+        ctx.postcond('estimator_survives_deepcopy')
 
 
 def run_mpi(ctx, e, P, spec, poison=0, suffix='', seed=1):
@@ -209,6 +243,36 @@ def run_mpi(ctx, e, P, spec, poison=0, suffix='', seed=1):
     g.local_ci = outs[0]['ci']
     g.outs = outs
     return g
+
+
+def run_serial_inside_world(ctx, e, P, spec, suffix=''):
+    """Every rank of an N-rank job clusters its OWN data with the serial algorithm (mpi_mode=False given explicitly): N
+    independent serial runs that happen to share a communicator.  Returns one GResult per rank (local frame indices)."""
+    N = P.N
+    snaps = [P.local(r) for r in range(N)]
+    wrapped = [P.wrap(x.copy()) for x in snaps]
+    metric = P.sut_metric()
+
+    def rank_fn(r):
+        sp = dict(spec)
+        sp['mpi'] = False
+        res, est = _call(e, sp, wrapped[r], metric)
+        if any(hasattr(c, '__len__') for c in res.center_indices):
+            raise SimViolation('distributed_result_in_serial_mode', 'rank %d asked for mpi_mode=False and got (rank, index) centre pairs %s'
+                               % (r, list(res.center_indices)[:4]))
+        return dict(ci=[int(c) for c in res.center_indices], d=np.array(res.distances), a=np.array(res.assignments),
+                    centers=[ctr(c) for c in res.centers])
+    w = C.make_world(ctx, N, 0, suffix=suffix)
+    outs = w.run(rank_fn)
+    st = w.stats()
+    ctx.steps += st['collectives'] + st['decisions']
+    ctx.fp(tuple(w.sched_trace))
+    out = []
+    for r in range(N):
+        require(P.data_unchanged(wrapped[r], snaps[r]), 'input_modified', 'rank %d data array changed' % r)
+        o = outs[r]
+        out.append(GResult(o['ci'], o['centers'], o['a'], o['d']))
+    return out
 
 
 def to_local_state(P, labels, distances):
